@@ -196,6 +196,17 @@ CLAIMED = {
         "stream observes a sample of real schedules and cannot enumerate them.",
    design="DESIGN.md §7 C16",
    technique="Lean 4 schedule-independence theorem over an interleaving model + rustc-checked Send/Sync obligations + real-thread stream"),
+ "C18": dict(
+   text="Machine-checked theorems (Lean 4) over a model of jp's decision logic with the library models plugged in: exit 0 with the pretty-printed "
+        "result and a newline exactly when an expression is given in exactly one way, compiles, the input is readable valid JSON and the "
+        "search succeeds; every failure prints nothing to stdout, something to stderr and exits non-zero; --unquoted affects string "
+        "results only; --ast never reads the input. The `cli` stream runs the real binary (built from /repo/jmespath-cli/src/main.rs) on "
+        "generated combinations of expressions, inputs (valid / invalid JSON, non-UTF-8, missing files), -e / -f / -u / --ast, and "
+        "compares exit status, stdout bytes and stderr-non-empty with the model, plus shape oracles on the binary alone.",
+   note="PARTIAL BY NATURE: process exit, pipes, the file system and clap's argument parsing are observed on sampled runs, not modelled; the Debug "
+        "rendering printed by --ast and of expression-reference results is not modelled (only presence is checked).",
+   design="DESIGN.md §7 C18",
+   technique="Lean 4 theorems over a model of the CLI's decision logic + real-binary correspondence stream"),
 }
 
 NOT_YET = "check not built yet in this session (work in progress; see DESIGN.md §10 for the order of work)"
